@@ -1,8 +1,9 @@
 """C17 — a callback layer that overrides nothing changes nothing."""
-import json, itertools
-import kdf
+import json, itertools, struct
+import kdf, dumpgen
 
-THEOREMS = ["Kdf.Props.C17.invoke_eq_spec", "Kdf.Props.C17.passthrough_transparent_of",
+THEOREMS = ["Kdf.Props.C17.top_calls_ok", "Kdf.Props.C17.topCall_transparent_of", "Kdf.Props.C17.topCall_transparent",
+            "Kdf.Props.C17.invokeSpec_skip", "Kdf.Props.C17.invoke_eq_spec", "Kdf.Props.C17.passthrough_transparent_of",
             "Kdf.Props.C17.add_del_restores", "Kdf.Props.C17.del_passthrough",
             "Kdf.Props.C17.forwarders_ok", "Kdf.Props.C17.passthrough_transparent",
             "Kdf.Props.C17.invoke_never_diverges"]
@@ -84,22 +85,213 @@ def spec2(layers, h):
     return "base %d" % h
 
 
+KT, DM, VM = 0xffffffff80000000, 0xffff880000000000, 0xffffc90000000000
+
+
+def write_linux_elf(R, path):
+    """ELF64 x86-64 Linux vmcore: 16 frames of RAM in the direct mapping, 4-level page tables (root = init_top_pgt, in kernel
+    text) that map the direct mapping, six vmalloc pages and the kernel-text pages of the tables and of init_uts_ns; VMCOREINFO
+    with the symbols the dump object and the x86-64 set-up of libaddrxlat resolve through the callback chain."""
+    rng = R.rng
+    root_pfn = 0x1c00 + rng.randrange(1, 16)
+    uts_pfn = 0x1e00 + rng.randrange(1, 32)
+    uts_off = 0x20 * rng.randrange(1, 60)
+    m36 = (1 << 36) - 1
+    mapping = {}
+    for i in range(16):
+        mapping[((DM >> 12) + i) & m36] = i
+    vm = {}
+    for i in range(6):
+        vpn = ((VM >> 12) + rng.randrange(1, 4) + 5 * i) & m36
+        mapping[vpn] = 15 - i; vm[vpn] = 15 - i
+    mapping[((KT >> 12) + uts_pfn) & m36] = uts_pfn
+    for i in range(14):
+        mapping[((KT >> 12) + root_pfn + i) & m36] = root_pfn + i
+    root, tables = dumpgen.x86_64_pgt_pages(mapping, [root_pfn + i for i in range(14)])
+    npt = max(tables) - root_pfn + 1
+    tdata = b"".join(tables.get(root_pfn + i, bytes(4096)) for i in range(npt))
+    names = (b"Linux", b"c17-node-%d" % rng.randrange(1000), b"5.4.0-verif", b"#1 SMP", b"x86_64", b"(none)")
+    uts = b"\0" * uts_off + struct.pack("<I", 6) + b"".join(x.ljust(65, b"\0") for x in names)
+    vmci = (b"OSRELEASE=5.4.0-verif\nPAGESIZE=4096\nSYMBOL(init_uts_ns)=%x\nSYMBOL(swapper_pg_dir)=%x\nSYMBOL(init_top_pgt)=%x\n"
+            b"SYMBOL(_stext)=ffffffff81000000\nNUMBER(phys_base)=0\nSIZE(list_head)=16\nOFFSET(list_head.next)=8\nLENGTH(mem_section)=2048\n"
+            % (KT + (uts_pfn << 12) + uts_off, KT + (root_pfn << 12), KT + (root_pfn << 12)))
+    segs = [dict(pfn=0, npages=16, voff=DM),
+            dict(paddr=root_pfn << 12, filesz=len(tdata), memsz=len(tdata), voff=KT, data=tdata),
+            dict(paddr=uts_pfn << 12, filesz=4096, memsz=4096, voff=KT, data=uts.ljust(4096, b"\0"))]
+    dumpgen.write_elf(path, segs, notes=dumpgen.elf_note(b"VMCOREINFO", 0, vmci))
+    return dict(root=root_pfn << 12, uts=(uts_pfn << 12) + uts_off, vm=vm, nodename=names[1].decode())
+
+
+def dump_observations(R, info):
+    rng = R.rng
+    vms = sorted(info["vm"])
+    obs = ["attr linux.uts.sysname", "attr linux.uts.nodename", "attr linux.uts.release", "attr linux.uts.machine", "attr arch.name",
+           "attr addrxlat.ostype", "attr linux.version_code", "hook 1 x",
+           "hook 3 init_uts_ns", "hook 3 init_top_pgt", "hook 3 _stext", "hook 3 nosuch", "hook 2 cr3", "hook 2 rip",
+           "hook 4 list_head", "hook 4 nosuch", "hook 5 list_head next", "hook 5 list_head prev", "hook 6 phys_base", "hook 6 nosuch",
+           "page 0 %x" % (info["root"] + 8 * rng.randrange(1, 512)), "page 1 %x" % (info["uts"] + 4), "page 0 5000000",
+           "page 2 %x" % (DM + 0x3000 + 8 * rng.randrange(512)),
+           "read 2 %x 8" % (KT + info["uts"] + 4), "str 2 %x" % (KT + info["uts"] + 4 + 65), "read 0 2000 16",
+           "read 2 %x 4096" % (DM + 0x2000), "conv 2 %x 1" % (KT + info["root"] + 0x10), "conv 2 %x 0" % (DM + 0x1234), "conv 0 1234 2"]
+    for vpn in vms:
+        va = (0xffff << 48) | (vpn << 12)
+        off = rng.choice([0, 8, 0x123, 0xff8, rng.randrange(4096)])
+        obs.append("read 2 %x %d" % (va + off, min(rng.choice([8, 16, 64]), 4096 - off)))
+        obs.append("conv 2 %x 0" % (va + off))
+    obs.append("read 2 %x 17" % (((0xffff << 48) | (vms[0] << 12)) + 4088))   # crosses into a page that is not mapped
+    obs.append("conv 2 %x 0" % (VM + (1 << 30)))
+    return obs
+
+
+def dump_layers(R, proof):
+    """layers that override nothing on the context a dump object hands out (kdump_get_addrxlat + addrxlat_ctx_add_cb), added
+    before or after the dump is opened: attributes, all seven hooks on the top record, KVADDR reads and conversions through
+    0..3 layers, and again after the layers were removed in a random order, must agree with the plain context.
+    Returns (failure or None, coverage dict, model lines, implementation-side answers for the model lines)."""
+    rng = R.rng
+    path = R.path("c17-linux.elf")
+    info = write_linux_elf(R, path)
+    obs = dump_observations(R, info)
+    cfgs = [(0, 1, "-")]
+    for n in (1, 2, 3):
+        for when in (0, 1):
+            order = list(range(n)); rng.shuffle(order)
+            cfgs.append((n, when, "".join(map(str, order))))
+    if R.tier == "thorough":
+        for n in (4, 6, 8):
+            for when in (0, 1):
+                order = list(range(n)); rng.shuffle(order)
+                cfgs.append((n, when, "".join(map(str, order[:rng.randrange(1, n + 1)]))))
+    text = "".join("cfg %s %d %d linux %s\n%s\n" % (path, n, when, order, "\n".join(obs)) for (n, when, order) in cfgs)
+    exe = R.build_harness("s_cbdump", ["s_cbdump.c"])
+    rc, out, err = R.run_harness(exe, stdin_text=text, env={"ASAN_OPTIONS": "detect_leaks=1:handle_segv=1"})
+    runs, cur = [], None
+    for l in kdf.obs(out):
+        if l.startswith("== cfg"):
+            cur = []; runs.append(cur)
+        elif cur is not None and not l.startswith("#"):
+            cur.append(l)
+    def split(lines, phase):
+        d = {}
+        for l in lines:
+            if l.startswith("x/x/%d " % phase) and " -> " in l:
+                k, v = l[6:].split(" -> ", 1)
+                d[k] = v
+        return d
+    replay = lambda n, when, order: dict(stream="cbdump", dump="tools/props/c17.py write_linux_elf (VERIF_SEED=%d)" % R.seed,
+                                         input="cfg <dump> %d %d linux %s\n%s\n" % (n, when, order, "\n".join(obs)),
+                                         layers=n, added="before open" if when == 0 else "after open", removal_order=order,
+                                         broken_theorems=proof["broken"])
+    fail = None
+    cov = dict(dump_configs=len(cfgs), dump_observations=0, dump_nontrivial=0)
+    if not runs:
+        raise kdf.CheckBroken("cbdump harness gave no output: rc=%s %s" % (rc, err[-1500:]))
+    plain = split(runs[0], 0)
+    if plain.get("open", "x").split()[0] != "0" or plain.get("attr linux.uts.nodename") != "str " + info["nodename"]:
+        raise kdf.CheckBroken("the plain context does not open the generated vmcore as expected: %s" % {k: plain.get(k) for k in ("open", "attr linux.uts.nodename")})
+    if not all(plain.get(o, "").startswith("ok") for o in obs if o.startswith("read 2 ffffc9") and not o.endswith(" 17")):
+        raise kdf.CheckBroken("the plain context cannot read the generated vmalloc pages: %s" % {o: plain.get(o) for o in obs if o.startswith("read 2 ffffc9")})
+    model_lines, impl_answers = [], []
+    for ci, (n, when, order) in enumerate(cfgs):
+        if ci >= len(runs) or not any(l.startswith("x/x/0 open") for l in runs[ci]):
+            fail = fail or ("%d layer(s) that override nothing, added %s: the process ended (rc=%s): %s" %
+                            (n, "before open" if when == 0 else "after open", rc, " | ".join(err.strip().split("\n")[:4])[:500]), replay(n, when, order))
+            break
+        for phase in ((0, 1) if order != "-" else (0,)):
+            got = split(runs[ci], phase)
+            for o in (["open"] if phase == 0 else []) + obs:
+                cov["dump_observations"] += 1
+                cov["dump_nontrivial"] += n > 0
+                if got.get(o) != plain.get(o) and fail is None:
+                    fail = ("dump context, %d layer(s) that override nothing added %s%s: '%s' gives '%s', the plain context gives '%s'" %
+                            (n, "before open" if when == 0 else "after open", " and removed again (order %s)" % order if phase else "",
+                             o, got.get(o), plain.get(o)), dict(replay(n, when, order), observation=o, got=got.get(o), want=plain.get(o), phase=phase))
+        if n:
+            # the calls the libraries make themselves through the top record, as the model sees them: n pass-through layers on
+            # the dump object's layer (which overrides every hook); the implementation's answer is read off the observations
+            got = split(runs[ci], 0)
+            st = "stack %d %s ; 999 127" % (n + 1, " ".join("; %d 0" % (1001 + j) for j in range(n)))
+            for hook, keys in ((3, ["attr linux.uts.nodename", "attr linux.uts.sysname"] if when == 0 else None),
+                               (0, [o for o in obs if o.startswith("read 2 ffffc9") and not o.endswith(" ")][:3])):
+                if not keys:
+                    continue
+                model_lines += [st, "top %d %d" % (hook, n)]
+                impl_answers.append("called %d 999 1" % hook if all(got.get(k) == plain.get(k) for k in keys) else "not-the-dump-layer %d" % hook)
+    if rc != 0 and fail is None:
+        fail = ("dump-context harness ended abnormally (rc=%s): %s" % (rc, " | ".join(err.strip().split("\n")[:4])[:500]), dict(stream="cbdump"))
+    return fail, cov, model_lines, impl_answers
+
+
+def py_dump_walk(R, d):
+    """Python binding on a dump's context (python/kdumpfile.c + python/addrxlat.c built by py_layers): page-table walks through
+    1..3 Context layers against a reference walk with plain reads"""
+    import os, re, subprocess, sys, collections
+    path = R.path("c17-py.elf")
+    info = write_linux_elf(R, path)
+    vas = []
+    for vpn in sorted(info["vm"]):
+        vas.append(((0xffff << 48) | (vpn << 12)) + R.rng.choice([0, 8, 0xff8, R.rng.randrange(4096)]))
+    vas += [DM + 0x5000 + R.rng.randrange(4096), KT + info["uts"], VM + (1 << 30)]
+    r = subprocess.run([sys.executable, os.path.join(kdf.VERIF, "harness/py_dumpwalk.py"), path, "%x" % info["root"]] + ["%x" % v for v in vas],
+                       capture_output=True, text=True, env=dict(os.environ, PYTHONPATH=d), timeout=300)
+    obs = collections.defaultdict(dict)
+    nobs = 0
+    for l in r.stdout.split("\n"):
+        m = re.match(r"(again )?(\w+) (\w+) (\d) -> (.*)", l.strip())
+        if m:
+            nobs += 1
+            obs[(m.group(2), m.group(3))][(int(m.group(4)), bool(m.group(1)))] = m.group(5)
+    rp = dict(stream="py-dumpwalk", dump="tools/props/c17.py write_linux_elf (VERIF_SEED=%d)" % R.seed, vaddrs=["%x" % v for v in vas],
+              replay="PYTHONPATH=<dir with _addrxlat.so, _kdumpfile.so built from python/*.c> python3 harness/py_dumpwalk.py <dump> %x %s"
+                     % (info["root"], " ".join("%x" % v for v in vas)))
+    if r.returncode != 0 or "done" not in r.stdout or nobs < 3 * 4 * len(vas):
+        return ("python dump-walk script stopped (rc=%s) after %d observations: %s" % (r.returncode, nobs, r.stderr.strip()[-600:]),
+                dict(rp, stdout_tail=r.stdout[-1000:], stderr=r.stderr[-1500:])), nobs
+    good = sum(v.get((0, False), "").startswith("val") for v in obs.values())
+    if good < 2 * len(vas):
+        raise kdf.CheckBroken("reference walks of the generated vmcore fail: %s" % dict(list(obs.items())[:4]))
+    for (what, va), v in sorted(obs.items()):
+        want = v.get((0, False))
+        if what != "word" and not want.startswith("val"):
+            want = None          # an address that does not translate: the layered walks must fail too (whatever the exception)
+        for key, got in sorted(v.items()):
+            if key == (0, False):
+                continue
+            if (want is None and got.startswith("val")) or (want is not None and got != want):
+                return ("Python binding on a dump's context: %s of %s through %d pass-through Context layer(s)%s gives '%s'; the reference "
+                        "walk with plain reads gives '%s'" % (what, va, key[0], " (after lower layers were dropped)" if key[1] else "", got,
+                                                             v.get((0, False))), dict(rp, what=what, vaddr=va, layers=key[0], got=got, want=v.get((0, False)))), nobs
+    return None, nobs
+
+
 def py_layers(R):
     """The Python binding's callback layers (python/addrxlat.c): build the extension from the working tree and run
     harness/py_layers.py.  Returns (failure or None, number of observations, distinct non-trivial)."""
     import os, re, shutil, subprocess, sys, sysconfig, collections
-    R.build_lib()
-    tree = R.path("lib", "tree")
+    # both libraries as one position-independent shared object (no sanitizers), the two extension modules linked against it,
+    # so that the dump object (_kdumpfile) and the Context layers (_addrxlat) work on the same libaddrxlat
+    pic, _ = R.build_lib(san=False, extra=("-fPIC",), tag="libpic")
+    tree = R.path("libpic", "tree")
     d = R.path("pyl")
     os.makedirs(d, exist_ok=True)
-    srcs = [os.path.join(tree, "src/addrxlat", f) for f in sorted(os.listdir(os.path.join(tree, "src/addrxlat")))
-            if f.endswith(".c") and not f.startswith("test-")]
-    cmd = ["gcc", "-shared", "-fPIC", "-O1", "-g", "-w", "-DHAVE_CONFIG_H", "-I" + tree, "-I" + os.path.join(tree, "include"),
-           "-I" + os.path.join(tree, "src"), "-I" + os.path.join(tree, "src/addrxlat"), "-I" + sysconfig.get_paths()["include"],
-           os.path.join(kdf.REPO, "python/addrxlat.c")] + srcs + ["-o", os.path.join(d, "_addrxlat.so")]
-    r = subprocess.run(cmd, capture_output=True, text=True)
+    r = subprocess.run(["gcc", "-shared", "-o", os.path.join(d, "libkdfall.so"), "-Wl,--whole-archive", pic, "-Wl,--no-whole-archive"] + kdf.LIBS,
+                       capture_output=True, text=True)
     if r.returncode:
-        raise kdf.CheckBroken("python/addrxlat.c does not compile from the working tree:\n" + r.stderr[-2000:])
+        raise kdf.CheckBroken("shared library for the Python modules does not link:\n" + r.stderr[-2000:])
+    procs = []
+    for mod in ("addrxlat", "kdumpfile"):
+        cmd = ["gcc", "-shared", "-fPIC", "-O1", "-g", "-w", "-DHAVE_CONFIG_H", "-I" + tree, "-I" + os.path.join(tree, "include"),
+               "-I" + os.path.join(tree, "src"), "-I" + os.path.join(tree, "src/addrxlat"), "-I" + os.path.join(kdf.REPO, "python"),
+               "-I" + sysconfig.get_paths()["include"], os.path.join(kdf.REPO, "python/%s.c" % mod), "-L" + d, "-lkdfall",
+               "-Wl,-rpath," + d, "-o", os.path.join(d, "_%s.so" % mod)]
+        procs.append((mod, subprocess.Popen(cmd, stdout=subprocess.PIPE, stderr=subprocess.PIPE, text=True)))
+    for mod, pr in procs:
+        out, err = pr.communicate()
+        if pr.returncode:
+            raise kdf.CheckBroken("python/%s.c does not compile from the working tree:\n%s" % (mod, err[-2000:]))
+    if os.path.exists(os.path.join(d, "kdumpfile")):
+        shutil.rmtree(os.path.join(d, "kdumpfile"))
+    shutil.copytree(os.path.join(kdf.REPO, "python/kdumpfile"), os.path.join(d, "kdumpfile"), ignore=shutil.ignore_patterns("Makefile*"))
     if os.path.exists(os.path.join(d, "addrxlat")):
         shutil.rmtree(os.path.join(d, "addrxlat"))
     shutil.copytree(os.path.join(kdf.REPO, "python/addrxlat"), os.path.join(d, "addrxlat"), ignore=shutil.ignore_patterns("Makefile*"))
@@ -178,8 +370,18 @@ def run(R):
             if got != want:
                 fails.append((len(s) + ndel, si, oi, h, got, want))
     pyfail, pyobs, pynontriv = py_layers(R)
+    pywfail, pywobs = py_dump_walk(R, R.path("pyl")) if not pyfail else (None, 0)
+    dfail, dcov, dmodel, dimpl = dump_layers(R, proof)
+    dmism = None
+    if dmodel:
+        dm = [l for l in kdf.obs(R.run_driver("cb", "\n".join(dmodel) + "\n")) if not l.startswith("bad-op")]
+        dmism = kdf.diff_streams(dimpl, dm)
+    if dfail and not fails:
+        R.violation(dfail[0], dfail[1])
     if pyfail and not fails:
         R.violation(pyfail[0], dict(pyfail[1], broken_theorems=proof["broken"]))
+    if pywfail and not fails:
+        R.violation(pywfail[0], dict(pywfail[1], broken_theorems=proof["broken"]))
     if fails:
         fails.sort()
         d, si, oi, h, got, want = fails[0]
@@ -189,9 +391,9 @@ def run(R):
                          input="stack %d %s\n" % (len(stacks[si]), " ".join("; %d %d" % pm for pm in stacks[si])) +
                                "".join("%s %d\n" % o for o in scr[si][:oi + 1]),
                          broken_theorems=proof["broken"], n_failing=len(fails)))
-    elif proof["broken"] or mism is not None:
-        R.violation("proof obligation or correspondence broken: theorems %s; first differing line %s" %
-                    (proof["broken"], mism),
+    elif (proof["broken"] or mism is not None or dmism is not None) and not (dfail or pyfail or pywfail):
+        R.violation("proof obligation or correspondence broken: theorems %s; first differing line %s; dump-context stream %s" %
+                    (proof["broken"], mism, dmism),
                     dict(stream="cb", broken_theorems=proof["broken"], lean_log=proof["log"][-1500:],
                          first_diff=None if mism is None else dict(index=mism,
                              impl=impl[mism] if mism < len(impl) else None,
@@ -209,8 +411,14 @@ def run(R):
                     "whose top layer leaves the hook untouched",
                traces_validated_against_impl=len(impl), correspondence_first_diff=mism,
                case_kinds=kinds, python_layer_observations=pyobs, python_layer_nontrivial=pynontriv,
+               python_dump_walk_observations=pywobs, dump_context=dcov, dump_context_model_lines=len(dimpl), dump_context_first_diff=dmism,
                samples=[dict(stack=stacks[i], ops=scr[i][:12]) for i in (1, len(stacks) // 2, len(stacks) - 2)])
     return "proof", cov, ["an implementation's behaviour is a function of (its identity, the record it is called with)",
                           "C indirect calls behave as modelled; stack overflow of the real code is reported as 'diverge'",
+                          "dump context (harness/s_cbdump.c): one generated x86-64 Linux vmcore (ELF) per run; the dump object's layer is "
+                          "modelled as a layer that overrides every hook; of the libraries' own calls through the top record (Model.Cb.topCall, "
+                          "record passed = Kdf.Gen.topCallPasses from the sources) the symbol look-up at open and the page fetch of page-table "
+                          "walks are tied to the implementation by their visible effect (UTS attributes, KVADDR reads), the other hooks by "
+                          "the extracted call-site table only",
                           "Python binding (python/addrxlat.c): not modelled; its layers are compared with each other and with the bottom "
                           "layer's own methods (7 hooks x 9 outcome kinds x 0..3 layers) on the implementation only"]
